@@ -8,7 +8,6 @@ import (
 	"math/rand"
 	"os"
 	"sort"
-	"strconv"
 	"strings"
 	"time"
 )
@@ -240,69 +239,8 @@ func excludedShape(prop string, s *scanSpec) string {
 		if d := roughScaleUpDelta(s, g); d > 5e6 {
 			return "oom_untaint_capacity"
 		}
-		// stale_lock_flag_early_return (C02 only; model and code agree): isLocked is set although the cool-down is over and the
-		// scan leaves through an early return (both empty / node count outside min..max) before scaleUpLock.locked() runs, so the
-		// flag stays set; clause 2 of check_C02_group ("outside the cool-down the lock ends free or freshly armed") fails.
-		if prop == "C02" && g.State.Locked && (g.State.LockAgeNs == nil || *g.State.LockAgeNs >= int64(g.Opts.ScaleUpCoolDownPeriodDuration())) {
-			nn, np := 0, 0
-			for _, n := range s.Nodes {
-				if n.Labels[g.Opts.LabelKey] == g.Opts.LabelValue {
-					nn++
-				}
-			}
-			filter := controller.NewPodAffinityFilterFunc(g.Opts.LabelKey, g.Opts.LabelValue)
-			if g.Opts.Name == controller.DefaultNodeGroup {
-				filter = controller.NewPodDefaultFilterFunc()
-			}
-			for _, p := range s.Pods {
-				if filter(p) {
-					np++
-				}
-			}
-			mn, mx := g.Opts.MinNodes, g.Opts.MaxNodes
-			if mn == 0 && mx == 0 {
-				for _, a := range s.Cloud {
-					if a.Name == g.Opts.CloudProviderGroupName {
-						mn, mx = int(a.Min), int(a.Max)
-					}
-				}
-			}
-			if (nn == 0 && np == 0) || nn < mn || nn > mx {
-				return "stale_lock_flag_early_return"
-			}
-		}
-		// c06_fatal_reap_nonmember (C06 only; model and code agree): a grace-expired tainted node is not a member of the cloud
-		// group, DeleteNodes answers NodeNotInNodeGroup and the scan ends (fatal) before the band's taints are written;
-		// check_C06_group still demands the band's exact taint count.
-		if prop == "C06" && !s.GlobalDry && !g.Opts.DryMode {
-			soft := g.Opts.SoftDeleteGracePeriodDuration()
-			for _, n := range s.Nodes {
-				if n.Labels[g.Opts.LabelKey] != g.Opts.LabelValue || n.Spec.Unschedulable || isForceTainted(n) || !isEscTainted(n) {
-					continue
-				}
-				member := false
-				for _, a := range s.Cloud {
-					if a.Name == g.Opts.CloudProviderGroupName {
-						for _, in := range a.Instances {
-							if n.Spec.ProviderID == "aws:///"+in.AZ+"/"+in.ID {
-								member = true
-							}
-						}
-					}
-				}
-				if member {
-					continue
-				}
-				for _, t := range n.Spec.Taints {
-					if t.Key == escKey {
-						if v, err := strconv.ParseInt(t.Value, 10, 64); err == nil && time.Duration(s.BaseSec-v)*time.Second >= soft-2*time.Second {
-							return "c06_fatal_reap_nonmember"
-						}
-						break
-					}
-				}
-			}
-		}
+		// (stale_lock_flag_early_return for C02 and c06_fatal_reap_nonmember for C06 were excluded here until main restated
+		// check_C02_group / api_faithful; the corpus files stay as regression inputs and are quiet now.)
 		// zero_created_zero_lastout: registration-lag lookup with lastScaleOut = zero time and a node whose creation
 		// timestamp is the zero time: Go's Sub gives 0 (not newer), the model's newer_than None says newer.
 		if g.State.ScaleDelta > 0 && g.State.LastOutAgeNs == nil {
